@@ -57,6 +57,10 @@ def c24 (kind : Kind) (fs : List Sexp) : Option Sexp := do
 
 /-! ### C23 -/
 
+def parseVal : Sexp → Option Bytes
+  | .list [_, b] => bytes? b
+  | _ => none
+
 def parseArg : Sexp → Option Arg
   | .list [_, b] => do pure (.ok (← bytes? b))
   | .atom "none" => some .none
@@ -72,7 +76,12 @@ def parseQOp (keys : List Bytes) : Sexp → Option MOp
   | .list [.atom "pull", i] => do pure (.a (← keys[(← nat? i)]?) (.pull true))
   | .list [.atom "pullx", i] => do pure (.a (← keys[(← nat? i)]?) (.pull false))
   | .list [.atom "clear", i] => do pure (.a (← keys[(← nat? i)]?) .clear)
-  | .list [.atom "reopen"] => some .reopen
+  | .list [.atom "sync", i, f] => do pure (.a (← keys[(← nat? i)]?) (.sync (← bool? f)))
+  | .list (.atom "reopen" :: pres) => do
+    let ps ← pres.mapM fun
+      | .list vs => vs.mapM parseVal
+      | _ => none
+    pure (.reopen (fun k => match (keys.zip ps).find? (fun p => p.1 == k) with | some p => p.2 | none => []))
   | _ => none
 
 def outQRes : QRes → Sexp
@@ -96,7 +105,7 @@ def c23 (kind : QKind) (fs : List Sexp) : Option Sexp := do
     | some p => p.1
     | none => 1000000 + b.length
   -- building the Hold injects a fresh queue at every key of the (empty) store
-  let (db0, ms0, _) := injectAll cls kind keys [] (fun _ => ⟨[], true⟩)
+  let (db0, ms0, _) := injectAll cls kind (fun _ => []) keys [] (fun _ => ⟨[], true⟩)
   let out := mrun cls kind keys db0 ms0 ops
   some (.list (out.map fun (r, obs) => Sexp.list [outQRes r, .list (obs.map fun (m, d) => Sexp.list [.list (m.map ofBytes), outDur d])]))
 
